@@ -414,6 +414,8 @@ func (m *manager) run(u unit) (out unitOutcome, err error) {
 				switch g.T {
 				case "viol":
 					c.violation(u, g.Key, g.What, g.Seq, g.Stack)
+				case "anchors":
+					u.Anchors = g.Anch
 				case "slow":
 					c.mu.Lock()
 					if len(c.slow) < 40 {
@@ -1040,13 +1042,13 @@ func main() {
 		per[n] = map[string]any{"seeds": st.Seeds, "units": st.Units, "extracted": st.Evals, "exercised": st.Exerc, "max_alloc_bytes_one_call": st.MaxAlloc, "slowest_call_ms": st.SlowMs}
 	}
 	r.Set("per_extractor", per)
-	r.Set("operator_set", "v1: identity; truncate; delete/duplicate/swap-adjacent line; replace byte by one of 16 structural tokens; delete/duplicate byte; replace value token / bracket group by null; truncate line at every column / drop line prefix; zip-aware: inner-entry mutation + drop/duplicate/empty entry; (thorough, binary seeds) set byte of first 1 KiB to 00/ff")
+	r.Set("operator_set", "v1: identity; truncate; delete/duplicate/swap-adjacent line; replace byte by one of 16 structural tokens; delete/duplicate byte; replace value token / bracket group by null; output-guided edits around occurrences of the names/versions extracted from the unmutated seed (seeds too large for per-offset operators); truncate line at every column / drop line prefix; zip-aware: inner-entry mutation + drop/duplicate/empty entry; (thorough, binary seeds) set byte of first 1 KiB to 00/ff")
 	r.Assume("os/rpm is instantiated with Config.Timeout = 8 s (quick) / 30 s (thorough) instead of its 5 min default: corrupt BerkeleyDB mutants run into that timeout by design; all other extractors are el.All defaults")
 	r.Assume("java/pomxmlnet is excluded (needs a registry); arbitrary byte strings are NOT covered: only edit distance <= 1 from a fixture or minimal document under operator set v1")
 	b := boundsFor(tier)
 	rule := fmt.Sprintf("for each of %d offline built-in extractors x each placement (paths.go, validated against FileRequired; a placement is either the file handed to Extract or a SECONDARY file the extractor opens through input.FS — os-release, chrome message.json, go.sum, -r includes, local parent pom.xml, containerd metadata.db/status — next to a healthy primary file) x each seed of that placement (every testdata fixture of the extractor resp. of the secondary format, inline minimal valid documents, %d minimal documents incl. empty/whitespace/null/lone quote/lone key; identical contents merged): "+
 		"every mutant of operator set v1 — identity; truncate at every offset (seeds <= %d B; larger: every 512-byte boundary); delete / duplicate / swap-adjacent line i (seeds <= %d B); "+
-		"replace byte i by each of 16 structural tokens at every offset (seeds <= %d B) or at line starts (seeds <= %d B); delete / duplicate byte i (seeds <= %d B); replace each value token or balanced bracket group by null (text seeds <= %d B); truncate line i at every column with the rest of the file kept, and drop the first k bytes of line i (text seeds <= %d B, lines <= 200 B); insert each of 4 case-length-changing sequences (invalid byte, U+023A, U+212A, U+0250) at file start, line starts, around ':' '=' and at word boundaries (text seeds <= %d B) and replace line i by such a sequence + its first k bytes (text seeds <= %d B); set each byte of the first 1 KiB to 00/ff (binary seeds, thorough=%v) — "+
+		"replace byte i by each of 16 structural tokens at every offset (seeds <= %d B) or at line starts (seeds <= %d B); delete / duplicate byte i (seeds <= %d B); replace each value token or balanced bracket group by null (text seeds <= %d B); truncate line i at every column with the rest of the file kept, and drop the first k bytes of line i (text seeds <= %d B, lines <= 200 B); insert each of 4 case-length-changing sequences (invalid byte, U+023A, U+212A, U+0250) at file start, line starts, around ':' '=' and at word boundaries (text seeds <= %d B) and replace line i by such a sequence + its first k bytes (text seeds <= %d B); set each byte of the first 1 KiB to 00/ff (binary seeds, thorough=%v); for seeds above the every-offset bound, output-guided edits: around each of <= 64 occurrences of the names/versions Extract reported for the unmutated seed, set the bytes at the edges of the occurrence, of its printable run and before that run to 00/01/space/ff and delete the occurrence — "+
 		"is placed and Extract is called with a complete ScanInput. CONTAINER-AWARE: for the zip-reading extractors (java/archive, python/wheelegg .egg) every zip fixture (<= 64 KiB quick / 256 KiB thorough) and two archives built from scratch (jar: MANIFEST.MF + pom.properties; egg: PKG-INFO) are unpacked, the same operators are applied to each inner text entry (first 16; for the first 4 also to every minimal document and to every loose fixture of the same base name put in its place) and the archive is re-packed with the same entry order and methods; plus archive-level operators drop / duplicate / empty entry i. "+
 		"RESOURCE CAP: java/archive is additionally run as a second instance with Config.MaxOpenedBytes = 256 KiB over the small jar fixtures and 7 built nested-archive shapes (2/8/400 inner *.jar entries that are not archives, healthy inner jars, a mix, three levels of nesting); one Extract may allocate at most 32 x that budget + 64 x file size + 8 MiB (honouring the cap allocates <= 12.5 x budget), else `java/archive:opened-bytes-budget`. "+
 		"Oracle: Extract must return (no panic, no process death, no stack overflow, no RLIMIT_AS 8 GiB abort, answer within the %v watchdog, which covers the parsing of secondary files too; os/rpm runs with its own Timeout knob set to 8 s quick / 30 s thorough). "+
